@@ -22,6 +22,7 @@ import (
 	"k8s.io/utils/clock"
 
 	"github.com/dapr/kit/events/queue"
+	"github.com/dapr/kit/verifhook"
 )
 
 type eventCh[T any] struct {
@@ -91,6 +92,7 @@ func (b *Batcher[K, T]) subscribe(ctx context.Context, ch chan<- T) {
 	b.wg.Add(1)
 	go func() {
 		defer func() {
+			verifhook.Point("batcher.forwarder.exit", id)
 			b.lock.Lock()
 			close(ch)
 			for i, eventCh := range b.eventChs {
@@ -127,6 +129,7 @@ func (b *Batcher[K, T]) execute(i *item[K, T]) {
 		return
 	}
 	for _, ev := range b.eventChs {
+		verifhook.Point("batcher.execute.beforeSend", ev.id)
 		select {
 		case ev.ch <- i.value:
 		case <-b.closeCh:
